@@ -180,8 +180,16 @@ def run(ctx):
         if not ok:
             r2.fail('%s/no-budget' % nid, 'src/builtin', '%s no longer zips its items with the search budget' % nid)
     # in XGenerator::iter the budget's Err must be propagated before the item (closure: search? then v)
-    it = [b for b in mir.bodies if b.nid.startswith('builtin::generators::XGenerator::iter::{closure')]
-    ok = any(any(strip_generics(t.get('decl') or '') == 'std::ops::Try::branch' for _, t in b.calls()) for b in it)
+    # (abstract evaluation of the closure that maps (item, permit) pairs: an exhausted budget must come out as the result)
+    from .lib import absint as _ai
+    it = [b for b in mir.bodies if b.nid.startswith('builtin::generators::XGenerator::iter::{closure') and b.d['argc'] == 2 and b.local_ty(2).startswith('(')]
+    ok = False
+    for b in it:
+        def no_calls(tm, vals, env):
+            return _ai.UNKNOWN
+        exhausted = _ai.returns(mir, b, {'_2': ('tuple', ('ITEM', ('err', 'BUDGET')))}, no_calls)
+        permitted = _ai.returns(mir, b, {'_2': ('tuple', ('ITEM', ('ok', ('tuple', ()))))}, no_calls)
+        ok = ok or (exhausted == {('err', 'BUDGET')} and permitted == {'ITEM'})
     r2.inst({'iter closure propagates the budget violation': ok}, ok=ok)
     if not ok:
         r2.fail('XGenerator::iter/propagate', 'src/builtin/generators.rs', 'the search-budget result is not propagated in XGenerator::iter')
@@ -191,25 +199,70 @@ def run(ctx):
     r3 = ctx.rule('R10.3', 'timeout gate compares the deadline with Instant::now() and is on every user-call path')
     ct = mir.find('runtime::Runtime::check_timeout')
     ok = False
+    table = {}
     if len(ct) == 1:
-        fam = [ct[0]] + [b for b in mir.bodies if b.id.startswith(ct[0].id + '::{closure')]
-        now = any(strip_generics(t.get('callee') or '') == 'std::time::Instant::now' for b in fam for _, t in b.calls())
-        cmp_ = any(strip_generics(t.get('callee') or t.get('decl') or '').endswith('PartialOrd>::gt') or strip_generics(t.get('decl') or '') == 'std::cmp::PartialOrd::gt' for b in fam for _, t in b.calls())
-        viol = any(s['k'] == 'assign' and s['rv']['k'] == 'agg' and s['rv'].get('v') == 'Timeout' for b in fam for _, _, s in b.stmts())
-        ok = now and cmp_ and viol
-        r3.inst({'Instant::now': now, 'deadline > now': cmp_, 'Timeout violation': viol}, ok=ok)
+        # the decision of check_timeout, evaluated abstractly for: no deadline; deadline before / at / after the present
+        from .lib import absint
+        from .lib.facts import callee_name
+
+        def scenario(scen):
+            def field_oracle(p, env):
+                names = [e.get('n') for e in p['p'] if isinstance(e, dict)]
+                if names and names[-1] == 'timeout':
+                    return 'none' if scen == 'none' else ('some', 'DL')
+                return absint.UNKNOWN
+
+            def oracle(tm, vals, env):
+                nm = strip_generics(callee_name(tm) or '')
+                if nm == 'std::time::Instant::now':
+                    return 'NOW'
+                ops = {'std::cmp::PartialOrd::gt': 'gt', 'std::cmp::PartialOrd::lt': 'lt', 'std::cmp::PartialOrd::ge': 'ge', 'std::cmp::PartialOrd::le': 'le',
+                       'std::cmp::PartialEq::eq': 'eq', 'std::cmp::PartialEq::ne': 'ne'}
+                if nm in ops and len(vals) == 2:
+                    def deref(v):
+                        for _ in range(4):
+                            if isinstance(v, tuple) and v and v[0] == 'ref':
+                                v = env.get(v[1], absint.UNKNOWN)
+                        return v
+                    a, b2 = deref(vals[0]), deref(vals[1])
+                    if {a, b2} == {'DL', 'NOW'}:
+                        rel = scen if a == 'DL' else {'lt': 'gt', 'gt': 'lt', 'eq': 'eq'}[scen]
+                        return {'gt': rel == 'gt', 'lt': rel == 'lt', 'ge': rel in ('gt', 'eq'), 'le': rel in ('lt', 'eq'), 'eq': rel == 'eq', 'ne': rel != 'eq'}[ops[nm]]
+                return absint.UNKNOWN
+            rs = absint.returns(mir, ct[0], {}, oracle, field_oracle)
+            out = set()
+            for r in rs:
+                if isinstance(r, tuple) and r and r[0] == 'ok':
+                    out.add('continue')
+                elif isinstance(r, tuple) and r and r[0] == 'err':
+                    out.add('violation:%s' % (r[1][2] if isinstance(r[1], tuple) and len(r[1]) > 2 else '?'))
+                else:
+                    out.add('unrecognised')
+            return sorted(out)
+        want = {'none': ['continue'], 'gt': ['continue'], 'eq': ['violation:Timeout'], 'lt': ['violation:Timeout']}
+        table = {s_: scenario(s_) for s_ in want}
+        ok = table == want
+        for s_ in sorted(want):
+            r3.inst({'deadline': {'none': 'not configured', 'gt': 'after now', 'eq': 'equal to now', 'lt': 'before now'}[s_], 'check_timeout_decides': table[s_], 'documented': want[s_]}, ok=table[s_] == want[s_], kind=('timeout', s_))
     if not ok:
-        r3.fail('check_timeout/shape', 'src/runtime.rs', 'check_timeout is no longer `deadline > Instant::now()` or else Timeout')
+        r3.fail('check_timeout/shape', 'src/runtime.rs', 'check_timeout no longer decides `continue while the deadline is after Instant::now(), Timeout otherwise`: %s' % table)
     efv = mir.find('runtime_scope::RuntimeScope::eval_func_with_values')
     if len(efv) == 1:
         b = efv[0]
-        ks = [mirq.try_continue_block(b, bb) for bb, t in b.calls() if strip_generics(t.get('callee') or '') == 'runtime::Runtime::check_timeout']
-        frames = [bb for bb, t in b.calls() if strip_generics(t.get('callee') or '') == 'runtime_scope::RuntimeScope::from_template']
-        ok = bool(ks) and all(k is not None for k in ks) and all(any(mirq.dominates(b, k[0], f) for k in ks) for f in frames) and bool(frames)
+        from . import c08
+        gates = c08.gate_functions(mir, 'runtime::Runtime::check_timeout')
+        ks = []
+        for bb, tm in b.calls():
+            if strip_generics(tm.get('callee') or '') in gates and not tm['dest']['p']:
+                cons = mirq.consumers(mir, b, tm['dest']['l'], depth=0)
+                if '<discriminant test>' in cons or any(c.endswith('::branch') for c in cons):
+                    ks.append(bb)
+        frames = [bb for bb, tm in b.calls() if strip_generics(tm.get('callee') or '') == 'runtime_scope::RuntimeScope::from_template']
+        ok = bool(ks) and all(any(mirq.dominates(b, k, f) for k in ks) for f in frames) and bool(frames)
         r3.inst({'check_timeout()? dominates frame construction': ok}, ok=ok)
         if not ok:
             r3.fail('eval_func_with_values/timeout', 'src/runtime_scope.rs', 'a user frame can be built without passing check_timeout()?')
-    r3.need(2)
+    r3.need(5)
 
     # ---------------- R10.4 skipping adaptors inside _iter
     r4 = ctx.rule('R10.4', 'adaptors that can discard unboundedly many items per step are budgeted, call a user function per item, or run over a finite outer')
